@@ -33,10 +33,16 @@ CHECKS = {
          "gnet engine stub (buffer semantics ported from gnet v2.3.6); TLS records are real"),
  "C14": ("transport family over every simulated upstream kind: refuse / black-hole / silent / half frame / garbage / FIN / RST / partitions / server crash+restart / idle-connection closes, placed by the seed: every ExchangeContext returns by its deadline + 1 s; against a healthy reachable server it succeeds (stale pooled connections are retried); waiters on a reset multiplexed connection leave it within 1 s; dial count bounded",
          "h3/quic upstreams not simulated (see DESIGN.md)"),
+ "C15": ("arm unit: the exported ClientLimiter driven under the fake clock with generated (address, time, cost) histories and configurations (limit, burst, masks present/omitted/out of range) against a textbook token bucket per subnet as the statement defines it (decisions compared except within 1e-6 tokens of the threshold; bound burst + rate x window on the real decisions); arm e2e: router with limiter, heavy and light subnets on udp/tcp/gnet/tls/http(s): admitted queries per subnet obey the bound, refusals are REFUSED / 503 and never forwarded, a subnet far inside its own budget is never refused",
+         "idle-bucket garbage collection (entries dropped after a minute) is part of what the unit arm compares"),
  "C16": ("transport family on udp:// with UDP and TCP fake servers on one address: TC on the UDP reply => TCP server sees the question and the caller gets exactly the TCP outcome; no TC => UDP reply returned, TCP untouched",
          ""),
+ "C17": ("arm addr (fault_enumeration-like: the product scheme x host form x port x dial_addr form, 620 combinations, is covered completely by a batch, 24 consecutive combinations per run): dial target recorded by the network facade and SNI/Host seen by a fake server vs values derived from the structured case; arm auth: 108 combinations of upstream kind x server certificate (good, wrong name, other CA, expired, not yet valid, self-signed) x option (ca, none, skip): success iff the reference predicate, and no query reaches an unauthenticated peer; arm mtls: tls/https listeners with verify_client_cert vs clients with acceptable / foreign / no certificate",
+         "h3/quic upstreams and the QUIC listener are not simulated; certificates use a fixed epoch matching the bubble's clock"),
  "C18": ("arms xclose (Close of every upstream kind at a seeded instant, twice, racing dials/exchanges/idle timers), rclose (router close during traffic), startfault (address in use, bad PEM, unknown protocol/scheme, missing file): Close returns within 2 s fake, later exchanges fail within 1 s, after 150 s grace the simulated network shows no socket owned by the proxy, run() returns an error and leaves nothing open, no panic",
          "QUIC listener / h3 / quic upstream sockets are not simulated"),
+ "C20": ("arms router / xport with yields, stalls, GC events and failing upstreams: (1) every third run uses a -race build of the simulator: a DATA RACE report with a repository frame is a violation; (2) the buffer pool facade poisons on release, quarantines and verifies buffers (write-after-release, double release) and fake upstreams flag the release pattern arriving on the wire (read-after-release)",
+         "race builds randomise scheduling, their replay is best effort; interleavings at lock boundaries / blocking points only"),
  "C19": ("router family, ample cache, lifetimes 4..600 s, bursts of hits in the last quarter from several groups, slow/failing/negative refreshes: hits are answered at once, at most one exchange in flight per (question, group) while the entry is live (for keys whose exchanges all succeed), a completed positive refresh is visible to later hits, the old entry stays usable after a failed refresh",
          "the fake upstream cannot tell a transport-level re-send from a refresh, hence the restriction of the single-flight invariant"),
 }
